@@ -55,6 +55,10 @@ OPS = {
     # an inline fragment on an interface that the object type of the enclosing class implements (object position, union member, nested)
     "inline_fragment_on_an_implemented_interface_at_object_positions":
         "query Q { me { id ... on Named { name } ... on Node { id } best { ... on Named { name } } } actor { ... on User { ... on Named { name } role } ... on Bot { ... on Node { id } model } } }",
+    # fixed f4231fe (was finding F44): a member type reached only through a spread inside a fragment on the abstract type
+    "interface_fragment_reaching_a_member_type_only_through_a_spread": "fragment OnBot on Bot { model } fragment OnNode on Node { ...OnBot } query Q { nodes { ...OnNode } }",
+    "member_fragment_spread_inside_an_unpacked_fragment_on_the_interface":
+        "fragment F0Doc on Doc { al1: pages al2: label } fragment F1Pic on Pic { al3: label stamp } fragment F2Labeled on Labeled { label ... on Doc { ...F0Doc } ...F1Pic } query Q { labels { ...F2Labeled } }",
     "skip_with_literal_conditions": "query Q { me { id name @skip(if: true) score @include(if: false) role @include(if: true) seen @skip(if: false) } }",
 }
 KNOWN_OPS = {
@@ -65,7 +69,6 @@ KNOWN_OPS = {
     "aliased_typename_on_abstract_type": "query Q { node { what: __typename id } actor { t: __typename ... on Bot { id } } }",
     "fields_before_conditional_inline_fragment_on_interface": "query Q($c: Boolean!) { node { id ... on User @skip(if: $c) { name } } }",
     "object_field_selected_directly_and_in_a_base_fragment": "fragment F on User { best { name } } query Q { me { best { id } ...F } }",
-    "interface_fragment_reaching_a_member_type_only_through_a_spread": "fragment OnBot on Bot { model } fragment OnNode on Node { ...OnBot } query Q { nodes { ...OnNode } }",
 }
 
 
@@ -411,7 +414,6 @@ KNOWN_FAILS = {"inline_fragment_on_other_interface": ["generation"], "directive_
                "fields_before_conditional_inline_fragment": ["conformant-response-accepted"],
                "fields_before_conditional_inline_fragment_on_interface": ["conformant-response-accepted"],
                "aliased_typename_on_abstract_type": ["generation"],
-               "interface_fragment_reaching_a_member_type_only_through_a_spread": ["serialises-back-to-the-response"],
                "object_field_selected_directly_and_in_a_base_fragment": ["serialises-back-to-the-response"]}
 
 
